@@ -29,6 +29,16 @@ def make_integrity(rng, kind, algo, data):
     if kind == "existing-other-content":
         # the correct digest of bytes that another key stores; the data being written is different
         return ref.sri("sha256", b"previous value"), ({"IntegrityError"} if algo == "sha256" else {"IntegrityError", "Ok"})
+    if kind == "truncated-digest":
+        # a prefix of the right digest is not the right digest
+        d = good.split("-", 1)[1]
+        return f"{algo}-{d[:rng.choice([4, 8, len(d) // 2 // 4 * 4])]}", {"IntegrityError"}
+    if kind == "empty-digest":
+        return f"{algo}-", {"IntegrityError"}
+    if kind == "multi-wrong-other-algo-plus-correct":
+        # the hash of the writer's algorithm is right; a hash of another (possibly stronger) algorithm is of other data:
+        # nothing may end up stored under an address it does not hash to
+        return f"{ref.sri(other_algo(rng, algo), data + b'!')} {good}", {"Ok", "IntegrityError"}
     if kind == "multi-all-wrong":
         o = other_algo(rng, algo)
         return f"{ref.sri(o, data + b'!')} {ref.sri(algo, data + b'!')}", {"IntegrityError"}
@@ -36,7 +46,8 @@ def make_integrity(rng, kind, algo, data):
 
 
 INTEGRITY_KINDS = ["none", "none", "correct", "wrong-same-algo", "existing-other-content", "correct-other-algo", "wrong-other-algo",
-                   "multi-with-correct", "multi-with-correct-and-wrong-same-algo", "multi-all-wrong"]
+                   "multi-with-correct", "multi-with-correct-and-wrong-same-algo", "multi-all-wrong",
+                   "truncated-digest", "empty-digest", "multi-wrong-other-algo-plus-correct"]
 
 
 def run(ctx):
@@ -173,6 +184,15 @@ def run(ctx):
                 ctx.violation(sig + "|accepted-but-unreadable",
                               f"commit Ok (declared integrity class {ikind}, writer algorithm {algo}) but read(key) "
                               f"gives {ev.brief(rd)}", det)
+    final_tree_walk(ctx, cache)
+
+
+def final_tree_walk(ctx, cache):
+    probs = ref.check_content_tree(cache)
+    ctx.count("content_files_walked", len(ref.content_census(cache)))
+    if probs:
+        ctx.violation("final|content-area", f"after all commits the content area holds a file that does not match its address: {probs[0]}",
+                      {"problems": probs[:5]})
 
 
 def strip(r):
